@@ -137,7 +137,10 @@ def run_one(name):
                     sigs.append((d.get("signature") or d.get("what") or "")[:110] + (" [no input]" if "no-failing-input-found" in l else ""))
                 except ValueError:
                     pass
-        return dict(name=name, prop=prop, kind=kind, desc=desc, suite=suite, exit=rc, wall=wall, sigs=sigs, tail=out[-600:])
+        # the not-repaired CallProgressive feeder defect is reported on every C17 run of the patched tree
+        new_sigs = [x for x in sigs if "CallProgressive" not in x]
+        return dict(name=name, prop=prop, kind=kind, desc=desc, suite=suite, exit=rc, wall=wall, sigs=new_sigs,
+                    baseline=len(sigs) - len(new_sigs), tail=out[-600:])
     finally:
         sh("git -C /repo worktree remove --force %s" % wt)
 
@@ -149,9 +152,11 @@ def main():
         if "error" in r:
             print("| %s | ERROR %s |" % (n, r["error"]))
             continue
-        print("| %s | %s | %s | %s | exit %d | %s | %.0f s |" % (
-            r["name"], r["prop"], r["desc"], r["suite"], r["exit"],
-            "; ".join(r["sigs"]) or ("none" if r["exit"] == 0 else r["tail"][-200:].replace("\n", " ")), r["wall"]))
+        verdict = "DETECTED" if r["sigs"] else "passes"
+        print("| %s | %s | %s | %s | %s (exit %d%s) | %s | %.0f s |" % (
+            r["name"], r["prop"], r["desc"], r["suite"][:40].replace("\n", " "), verdict, r["exit"],
+            ", baseline finding" if r["baseline"] else "",
+            "; ".join(r["sigs"]) or "none beyond the baseline", r["wall"]))
         sys.stdout.flush()
 
 
